@@ -486,6 +486,7 @@ func init() {
 			fmt.Fprintf(w, "def noCriteriaTypes : List String := %s\n", c18StrList(xs))
 		}
 		c18MarginFacts(w)
+		c18HFFacts(w)
 	})
 }
 
